@@ -37,6 +37,13 @@ def real_write(prog, nptdms, version, with_index=True):
     return data.getvalue(), index.getvalue(), None
 
 
+def real_write_resilient(prog, nptdms, version):
+    """as real_write, but a rejected write_segment call is skipped and the program goes on (see gen_writer.write_resilient)"""
+    data, index = io.BytesIO(), io.BytesIO()
+    accepted, rejected, err = gw.write_resilient(prog, nptdms, version, data, index)
+    return data.getvalue(), index.getvalue(), accepted, rejected, err
+
+
 def prop_matches(v, got_raw, got_conv):
     """written value description vs the value read back (raw_timestamps=True and False)"""
     from nptdms.timestamp import TdmsTimestamp
@@ -219,13 +226,23 @@ def run(ctx):
         prog = gw.draw(ctx.rnd)
         version = ctx.rnd.choice([4712, 4713])
         stats["programs"] += 1
-        data, index, err = real_write(prog, nptdms, version)
+        full_line = gw.to_line(prog, version)
+        data, index, accepted_prog, n_rej, err = real_write_resilient(prog, nptdms, version)
+        if n_rej:
+            # some write_segment calls raised: the model must reject the full program too, and the calls that raised must have
+            # been no-ops: everything below is checked against the program without them
+            stats["rejected"] += 1
+            stats["rejected_calls"] = stats.get("rejected_calls", 0) + n_rej
+            mf = model.ask(full_line) if model is not None else None
+            if mf is not None and mf.get("ok") and "ValueError" in gw.REJECTION_KINDS:
+                disagreements.append(dict(what="real writer rejects a write_segment call but the model writes the whole program", program=full_line))
+            prog = accepted_prog
+        if not any(prog) and err is None:
+            continue        # every call was rejected: nothing was written
         line = gw.to_line(prog, version)
         m = model.ask(line) if model is not None else None
         if err is not None:
-            stats["rejected"] += 1
-            if m is not None and m.get("ok") and isinstance(err, ValueError):
-                disagreements.append(dict(what="real writer rejects (%s) but the model writes" % str(err)[:80], program=line))
+            violations.append(Violation("TdmsWriter raised %s outside write_segment: %s" % (type(err).__name__, str(err)[:160]), dict(kind="program", program=full_line)))
             continue
         stats["accepted"] += 1
         stats["segments"] += sum(len(s) for s in prog)
